@@ -45,11 +45,31 @@ def _filler(kind, rnd, after_line_comment):
         f = rnd.choice([" /* c */ ", "/* a;b */", " /* it's \"q\" */ ", "\n/* multi\n line; */\n", "/**/"])
     elif kind == "line":
         f = rnd.choice([" -- c\n", " -- a;b 'x\n  ", "\n-- only\n"])
+    elif kind == "hash":
+        f = rnd.choice([" # c\n", " # a;b 'x\n  ", "\n# only\n", " #c\n"])
     else:
         raise ValueError(kind)
     if after_line_comment and not f.startswith("\n"):
         f = "\n" + f
     return f
+
+
+_HASH = {}
+
+
+def hash_comment_dialect(dialect):
+    """does this dialect's own lexer read '# ...' as a line comment? (asked of sqlfluff, a dependency; the legacy analyzer is not asked)"""
+    if dialect not in _HASH:
+        ok = False
+        if dialect != "non-validating":
+            try:
+                from sqlfluff.core import FluffConfig, Linter
+                p = Linter(config=FluffConfig(overrides={"dialect": dialect})).parse_string("select a # c\nfrom t\n")
+                ok = not p.violations and p.tree is not None and any("comment" in x.get_type() for x in p.tree.raw_segments)
+            except Exception:
+                ok = False
+        _HASH[dialect] = ok
+    return _HASH[dialect]
 
 
 def gaps(lv):
@@ -87,7 +107,9 @@ def rewrite(lv, dialect, spec, rnd):
     """spec: {"kind": ..., "at": optional single boundary index}; returns new text or None when not applicable"""
     lv = [list(x) for x in lv]
     kind = spec["kind"]
-    if kind in ("ws", "block", "line"):
+    if kind in ("hash", "ins_hash") and not hash_comment_dialect(dialect):
+        return None
+    if kind in ("ws", "block", "line", "hash"):
         gs = gaps(lv)
         if not gs:
             return None
@@ -103,7 +125,7 @@ def rewrite(lv, dialect, spec, rnd):
             for k in range(i + 1, j):
                 lv[k][0] = ""
         return "".join(x[0] for x in lv)
-    if kind in ("ins_block", "ins_line"):
+    if kind in ("ins_block", "ins_line", "ins_hash"):
         pts = insertion_points(lv)
         if not pts:
             return None
@@ -114,7 +136,7 @@ def rewrite(lv, dialect, spec, rnd):
         cs = set(chosen)
         for k, x in enumerate(lv):
             if k in cs:
-                out.append(_filler("block" if kind == "ins_block" else "line", rnd, False))
+                out.append(_filler({"ins_block": "block", "ins_line": "line", "ins_hash": "hash"}[kind], rnd, False))
             out.append(x[0])
         return "".join(out)
     if kind in ("upper", "lower", "swap", "mixed"):
@@ -167,6 +189,7 @@ def norm_col(s):
     s = re.sub(r"subquery#[0-9a-f]{8}", "subquery#anon", s)
     t = re.sub(r"/\*.*?\*/", "", s, flags=re.S)
     t = re.sub(r"--[^\n]*", "", t)
+    t = re.sub(r"#[^\n]*\n", "\n", t)
     t2 = re.sub(r"\s+", "", t)
     if _SIMPLE.match(s) and t2 == s:
         return s
